@@ -121,6 +121,24 @@ def _paris(pendulum):
     return _PARIS[0]
 
 
+def _intervals_of(pendulum, a):
+    """Intervals (a Duration subclass: what b - a of two DateTimes returns) whose elapsed length is a: between UTC values and
+    between values of a DST zone around its spring change."""
+    out = []
+    if not a or abs(a) >= 9000 * 365 * 86400 * US:
+        return out
+    ta = mk_td(a)
+    for lbl, start in (("utc", pendulum.DateTime(2, 1, 1, tzinfo=pendulum.UTC) if a > 0 else pendulum.DateTime(9998, 1, 1, tzinfo=pendulum.UTC)),
+                       ("paris", _paris(pendulum))):
+        try:
+            iv = (start + ta) - start
+        except (OverflowError, ValueError):
+            continue
+        if obs.td_us(iv) == a:
+            out.append((lbl, iv))
+    return out
+
+
 def check_pair(acc, pendulum, a, b):
     da, db = mk_dur(pendulum, a), mk_dur(pendulum, b)
     ta, tb = mk_td(a), mk_td(b)
@@ -176,6 +194,16 @@ def check_pair(acc, pendulum, a, b):
             for oname, op, wt in (("floordiv", operator.floordiv, "number"), ("truediv", operator.truediv, "number"),
                                   ("mod", operator.mod, "Duration"), ("divmod", divmod, ("number", "Duration"))):
                 _compare(acc, pendulum, oname, f"D-Interval/{lbl}", dict(case, right="Interval/" + lbl), lambda: op(da, iv), lambda: op(ta, tb), wt)
+    # an Interval as the LEFT operand of every binary operator (forward and inverted ones)
+    for lbl, iv in _intervals_of(pendulum, a):
+        c2 = dict(case, left="Interval/" + lbl)
+        for oname, op, wt in (("add", operator.add, "Duration"), ("sub", operator.sub, "Duration"),
+                              ("floordiv", operator.floordiv, "number"), ("truediv", operator.truediv, "number"),
+                              ("mod", operator.mod, "Duration"), ("divmod", divmod, ("number", "Duration")),
+                              ("compare", operator.eq, None), ("compare", operator.lt, None), ("compare", operator.ge, None)):
+            for rname, right in (("Duration", db), ("timedelta", tb)):
+                _compare(acc, pendulum, oname, f"Interval-{op.__name__}-{rname}/{lbl}", c2, lambda: op(iv, right), lambda: op(ta, tb), wt)
+        _compare(acc, pendulum, "compare", f"eq-timedelta-Interval/{lbl}", c2, lambda: (tb == iv, iv == tb), lambda: (tb == ta, ta == tb))
     for oname, op in (("eq", operator.eq), ("ne", operator.ne), ("lt", operator.lt), ("le", operator.le),
                       ("gt", operator.gt), ("ge", operator.ge)):
         _compare(acc, pendulum, "compare", f"{oname}-DD", case, lambda: op(da, db), lambda: op(ta, tb))
@@ -191,6 +219,9 @@ def check_unary_num(acc, pendulum, a, nums):
     case = {"kind": "un", "a": a}
     _compare(acc, pendulum, "neg", "value", case, lambda: -d, lambda: -t, "Duration")
     _compare(acc, pendulum, "abs", "value", case, lambda: abs(d), lambda: abs(t))
+    for lbl, iv in _intervals_of(pendulum, a):
+        _compare(acc, pendulum, "neg", f"Interval/{lbl}", dict(case, left="Interval/" + lbl), lambda: -iv, lambda: -t, "Duration")
+        _compare(acc, pendulum, "abs", f"Interval/{lbl}", dict(case, left="Interval/" + lbl), lambda: abs(iv), lambda: abs(t))
     _compare(acc, pendulum, "hash", "value", case, lambda: hash(d) == hash(t), lambda: True)
     _compare(acc, pendulum, "eq-twin", "value", case, lambda: (d == t, t == d, d != t), lambda: (True, True, False))
     for n in nums:
@@ -201,6 +232,13 @@ def check_unary_num(acc, pendulum, a, nums):
         _compare(acc, pendulum, "truediv", f"D/{kind}", c2, lambda: d / n, lambda: t / n, "Duration")
         if isinstance(n, int):
             _compare(acc, pendulum, "floordiv", "D//int", c2, lambda: d // n, lambda: t // n, "Duration")
+        for lbl, iv in _intervals_of(pendulum, a):
+            c3 = dict(c2, left="Interval/" + lbl)
+            _compare(acc, pendulum, "mul", f"Interval*{kind}/{lbl}", c3, lambda: iv * n, lambda: t * n, "Duration")
+            _compare(acc, pendulum, "mul", f"{kind}*Interval/{lbl}", c3, lambda: n * iv, lambda: n * t, "Duration")
+            _compare(acc, pendulum, "truediv", f"Interval/{kind}/{lbl}", c3, lambda: iv / n, lambda: t / n, "Duration")
+            if isinstance(n, int):
+                _compare(acc, pendulum, "floordiv", f"Interval//int/{lbl}", c3, lambda: iv // n, lambda: t // n, "Duration")
 
 
 def check_ym(acc, pendulum, y, mo, rest, n):
